@@ -54,6 +54,33 @@ def block_cases(rng, tier):
     return out
 
 
+def return_into_it_cases(rng, tier):
+    """an exception return executed in ARM state (MOVS PC,LR / SUBS PC,LR,#imm from Supervisor mode) whose SPSR holds a Thumb state
+    in the middle of an IT block: the CPSR becomes the SPSR, so ITSTATE is exactly the saved one (not advanced once more) and the
+    flags are the saved ones; whole step of the implementation against the architectural expectation"""
+    import stepgen
+    t = statelib.load_index(C.GEN)['tables']
+    icpsr = t['sys_names'].index('cpsr')
+    ispsr = t['sys_names'].index('spsr_svc')
+    ilr = t['rnames'].index('LRsvc')
+    out = []
+    its = [0x08, 0x0C, 0x1C, 0x18, 0xE4, 0x2A, 0x96, 0x00] if tier == 'quick' else list(range(0, 256, 3))
+    for it in its:
+        for word, sub in ((0xE1B0F00E, 0), (0xE25EF004, 4)):
+            st = stepgen.random_state(rng, t, thumb=False, mpu=False)
+            nzcv = rng.randrange(16)
+            st['sys'][icpsr] = 0x13 | (rng.randrange(16) << 28)
+            spsr = 0x10 | (1 << 5) | (nzcv << 28) | ((it >> 2) << 10) | ((it & 3) << 25)
+            st['sys'][ispsr] = spsr
+            st['R'][ilr] = 0x1000 + 8 * rng.randrange(4, 20) + sub
+            stepgen.put_instr(st, word, 32)
+            regs = [st['R'][k] for k in range(4)]
+            out.append({'impl': {'kind': 'it_block', 'state': stepgen.clean(st), 'steps': 1}, 'model': None,
+                        'spec': '(0 :: ' + ' :: '.join(str(x) for x in regs + [nzcv, it]) + ' :: nil)',
+                        'label': 'return_into_it', 'nontrivial': True})
+    return out
+
+
 def it_exec_cases(rng, tier):
     """It.execute for every firstcond and mask on random CPSR values: ITSTATE = firstcond:mask, nothing else"""
     t = statelib.load_index(C.GEN)['tables']
@@ -73,7 +100,7 @@ def it_exec_cases(rng, tier):
     return out
 
 
-PROPS_FILES = ['C08', 'C08it']
+PROPS_FILES = ['C08', 'C08it', 'C08step']
 
 
 def units():
@@ -81,8 +108,11 @@ def units():
         Unit('it_advance', ['C08_advance', 'C08_in_it_block', 'C08_last_in_it_block'], ['Proofs/CondProofs.v'],
              ['registers.Registers.it_advance', 'arm_v6.ArmV6.in_it_block', 'arm_v6.ArmV6.last_in_it_block'],
              adv_cases, IMPORTS, SPEC_IMPORTS),
+        Unit('step_itstate', ['C08_step_itstate', 'C08_psr_IT_with_IT'], ['Proofs/StepIT.v', 'Proofs/StepProofs.v'],
+             ['arm_v6.ArmV6.emulate_cycle', 'arm_v6.ArmV6.execute_instruction', 'registers.Registers.it_advance'], None, IMPORTS, SPEC_IMPORTS),
         Unit('it_instruction', ['C08_IT_execute'], ['Proofs/MiscProofs.v'], ['opcodes.abstract_opcodes.it.It.execute'], it_exec_cases,
              IMPORTS, 'From ArmV Require Import Lib.PyZ Lib.Monad Spec.Pseudocode Spec.Arch Spec.MachineView.'),
         Unit('it_schedule', ['C08_schedule', 'C08_advance_all'], ['Proofs/ITSchedule.v'], [], None, IMPORTS, SPEC_IMPORTS),
         Unit('it_block_steps', [], [], [], block_cases, IMPORTS, 'From ArmV Require Import Spec.Pseudocode Spec.Arch Corr.ItBlockSpec.'),
+        Unit('return_into_it', [], [], [], return_into_it_cases, IMPORTS, 'From Coq Require Import ZArith List.'),
     ]
